@@ -145,7 +145,7 @@ def _p(pid, title, rules, decided, undecided, anchors=(), floor=1, extra_assumpt
 
 
 _p('C01', 'Attack-graph edges are exactly the MAL meaning of the step expressions',
-   ['R1', 'R2', 'R12', 'R8', 'R14', 'R19', 'R22', 'R18', 'R20', 'R6', 'R17', 'R10', 'R15', 'R25'],
+   ['R1', 'R2', 'R12', 'R8', 'R14', 'R19', 'R22', 'R18', 'R20', 'R6', 'R17', 'R10', 'R15', 'R4', 'R25'],
    decided=['R1: the evaluator never removes from a list it iterates (set operators, sub-type '
             'filter, recursion through callee summaries)',
             'R2: every child link created by generation is mirrored by the converse parent link on '
